@@ -287,11 +287,17 @@ type c18Obj struct {
 func c18NewObj(kind, path string) *c18Obj {
 	return &c18Obj{kind: kind, e: keyshare.NewECDSAKeyshareStore(path), f: keyshare.NewFrostKeyshareStore(path), t: topology.NewTopologyStore(path)}
 }
+// Every user of the key-share stores brackets its access with LockKeyshare / UnlockKeyshare (signing: Lock, Get, Unlock;
+// keygen / resharing: Lock, …, Store, Unlock) — so do these. The topology store locks internally.
 func (o *c18Obj) store(v c18Val) error {
 	switch o.kind {
 	case "ecdsa":
+		o.e.LockKeyshare()
+		defer o.e.UnlockKeyshare()
 		return o.e.StoreKeyshare(v.ecdsa)
 	case "frost":
+		o.f.LockKeyshare()
+		defer o.f.UnlockKeyshare()
 		return o.f.StoreKeyshare(v.frost)
 	}
 	return o.t.StoreTopology(v.topo)
@@ -301,8 +307,12 @@ func (o *c18Obj) get() (c18Val, error) {
 	var err error
 	switch o.kind {
 	case "ecdsa":
+		o.e.LockKeyshare()
+		defer o.e.UnlockKeyshare()
 		v.ecdsa, err = o.e.GetKeyshare()
 	case "frost":
+		o.f.LockKeyshare()
+		defer o.f.UnlockKeyshare()
 		v.frost, err = o.f.GetKeyshare()
 	default:
 		v.topo, err = o.t.Topology()
@@ -310,31 +320,10 @@ func (o *c18Obj) get() (c18Val, error) {
 	return v, err
 }
 
-// the REAL store / getter for each kind
-func c18Store(path string, v c18Val) error {
-	switch v.kind {
-	case "ecdsa":
-		return keyshare.NewECDSAKeyshareStore(path).StoreKeyshare(v.ecdsa)
-	case "frost":
-		return keyshare.NewFrostKeyshareStore(path).StoreKeyshare(v.frost)
-	default:
-		return topology.NewTopologyStore(path).StoreTopology(v.topo)
-	}
-}
+// the REAL store / getter for each kind, through a fresh store object (a freshly started relayer)
+func c18Store(path string, v c18Val) error { return c18NewObj(v.kind, path).store(v) }
 
-func c18Get(kind, path string) (c18Val, error) {
-	v := c18Val{kind: kind}
-	var err error
-	switch kind {
-	case "ecdsa":
-		v.ecdsa, err = keyshare.NewECDSAKeyshareStore(path).GetKeyshare()
-	case "frost":
-		v.frost, err = keyshare.NewFrostKeyshareStore(path).GetKeyshare()
-	default:
-		v.topo, err = topology.NewTopologyStore(path).Topology()
-	}
-	return v, err
-}
+func c18Get(kind, path string) (c18Val, error) { return c18NewObj(kind, path).get() }
 
 // ---------------------------------------------------------------------------------------------- equality of values
 // field-by-field, independent of the file format: big integers by Cmp, curve points / scalars by their Equal,
@@ -649,8 +638,19 @@ func c18StoreOp(a []string, ro bool) string {
 	if oldS != "-" && bytes.Equal(oldB, newB) {
 		same = 1
 	}
+	left := c18Left(dir) // what the store itself left behind, before anybody else touches the directory
+	get := "other"
+	got, gerr := c18Get(kind, path)
+	switch {
+	case gerr != nil:
+		get = "err"
+	case c18Eq(got, newV):
+		get = "new"
+	case oldS != "-" && c18Eq(got, oldV):
+		get = "old"
+	}
 	file := "other"
-	fb, rerr := os.ReadFile(path)
+	fb, rerr := os.ReadFile(path) // after the read cycle: a reader must not change the file either
 	switch {
 	case rerr != nil && os.IsNotExist(rerr):
 		file = "absent"
@@ -663,17 +663,7 @@ func c18StoreOp(a []string, ro bool) string {
 	case len(fb) < len(newB) && bytes.Equal(fb, newB[:len(fb)]):
 		file = "pre" + itoa(len(fb))
 	}
-	get := "other"
-	got, gerr := c18Get(kind, path)
-	switch {
-	case gerr != nil:
-		get = "err"
-	case c18Eq(got, newV):
-		get = "new"
-	case oldS != "-" && c18Eq(got, oldV):
-		get = "old"
-	}
-	return fmt.Sprintf("n=%d,%d,%d;st=%s;file=%s;get=%s;left=%d", len(oldB), len(newB), same, st, file, get, c18Left(dir))
+	return fmt.Sprintf("n=%d,%d,%d;st=%s;file=%s;get=%s;left=%d", len(oldB), len(newB), same, st, file, get, left)
 }
 
 // seq <kind> <step;step;…>   step = <mode>:<k>:<value spec>
@@ -722,6 +712,19 @@ func c18OpSeq(a []string) string {
 		default:
 			return st
 		}
+		left := c18Left(dir)
+		get := "x"
+		got, gerr := c18Get(kind, path)
+		if gerr != nil {
+			get = "err"
+		} else {
+			for i, w := range vals {
+				if c18Eq(got, w.v) {
+					get = "v" + itoa(i)
+					break
+				}
+			}
+		}
 		file := "absent"
 		fb, rerr := os.ReadFile(path)
 		if rerr == nil {
@@ -735,19 +738,7 @@ func c18OpSeq(a []string) string {
 		} else if !os.IsNotExist(rerr) {
 			file = "unreadable"
 		}
-		get := "x"
-		got, gerr := c18Get(kind, path)
-		if gerr != nil {
-			get = "err"
-		} else {
-			for i, w := range vals {
-				if c18Eq(got, w.v) {
-					get = "v" + itoa(i)
-					break
-				}
-			}
-		}
-		out = append(out, fmt.Sprintf("%d,%d,%s,%s,%s,%d", cls, len(b), st, file, get, c18Left(dir)))
+		out = append(out, fmt.Sprintf("%d,%d,%s,%s,%s,%d", cls, len(b), st, file, get, left))
 	}
 	return joinOr(out, "/")
 }
@@ -845,6 +836,186 @@ func c18OpObj(a []string) string {
 	return joinOr(out, "/")
 }
 
+// other files that live next to the store's file (names chosen around the store's own name)
+var c18SiblingNames = []string{"data.json-ecdsa", "data.json.bak", "data.json2", "data.jso", "xdata.json", "data.json.d"}
+
+// c18Spell: the same file under another legal spelling of its path
+func c18Spell(dir, how string) (string, error) {
+	switch how {
+	case "clean":
+		return dir + "/data.json", nil
+	case "dot":
+		return dir + "/./data.json", nil
+	case "dslash":
+		return dir + "//data.json", nil
+	case "dotdot":
+		if err := os.MkdirAll(filepath.Join(dir, "data.json.d"), 0o755); err != nil { // (also a sibling DIRECTORY)
+			return "", err
+		}
+		return dir + "/data.json.d/../data.json", nil
+	case "rel", "dotrel":
+		wd, err := os.Getwd()
+		if err != nil {
+			return "", err
+		}
+		r, err := filepath.Rel(wd, filepath.Join(dir, "data.json"))
+		if err != nil {
+			return "", err
+		}
+		if how == "dotrel" {
+			return "./" + r, nil
+		}
+		return r, nil
+	}
+	return "", fmt.Errorf("bad spelling")
+}
+
+// life <kind> <path spelling> <sibling idx,…|-> <step;step;…>    step = g | <none|fail|die>:<k>:<value spec>
+// The life of one relayer's store: the path spelled as the configuration might spell it, other files next to it, one
+// store object (a new one after every `die`: the restart), every access bracketed by Lock/Unlock.
+//   =>  per step, joined by `/`:   g,<v<c>|err|x>,<siblings intact>     s,<c>,<len>,<ok|err|died>,<file>,<left>,<siblings intact>
+func c18OpLife(a []string) string {
+	kind := a[0]
+	dir, err := os.MkdirTemp("", "verif-c18l-")
+	if err != nil {
+		return "notmp"
+	}
+	defer os.RemoveAll(dir)
+	path, err := c18Spell(dir, a[1])
+	if err != nil {
+		return "nospell"
+	}
+	clean := filepath.Join(dir, "data.json")
+	sibs := map[string][]byte{}
+	for _, it := range items(a[2], ",") {
+		name := c18SiblingNames[int(u64(it))%len(c18SiblingNames)]
+		if name == "data.json.d" {
+			if os.MkdirAll(filepath.Join(dir, name), 0o755) != nil {
+				return "nosib"
+			}
+			sibs[name] = nil
+			continue
+		}
+		content := []byte("{\"sibling\":\"" + name + "\"}")
+		if os.WriteFile(filepath.Join(dir, name), content, 0o644) != nil {
+			return "nosib"
+		}
+		sibs[name] = content
+	}
+	if a[1] == "dotdot" {
+		sibs["data.json.d"] = nil
+	}
+	intact := func() int {
+		n := 0
+		for name, c := range sibs {
+			if c == nil {
+				if fi, err := os.Stat(filepath.Join(dir, name)); err == nil && fi.IsDir() {
+					n++
+				}
+			} else if b, err := os.ReadFile(filepath.Join(dir, name)); err == nil && bytes.Equal(b, c) {
+				n++
+			}
+		}
+		return n
+	}
+	left := func() int {
+		n := 0
+		if es, err := os.ReadDir(dir); err == nil {
+			for _, e := range es {
+				if _, ok := sibs[e.Name()]; !ok && e.Name() != "data.json" {
+					n++
+				}
+			}
+		}
+		return n
+	}
+	obj := c18NewObj(kind, path)
+	type val struct {
+		v c18Val
+		b []byte
+	}
+	vals := []val{}
+	out := []string{}
+	for _, stp := range items(a[3], ";") {
+		if stp == "g" {
+			got, gerr := obj.get()
+			res := "x"
+			if gerr != nil {
+				res = "err"
+			} else {
+				for i, w := range vals {
+					if c18Eq(got, w.v) {
+						res = "v" + itoa(i)
+						break
+					}
+				}
+			}
+			out = append(out, fmt.Sprintf("g,%s,%d", res, intact()))
+			continue
+		}
+		f := strings.Split(stp, ":")
+		if len(f) != 3 {
+			return "badstep"
+		}
+		v, err := c18Build(kind, f[2])
+		if err != nil {
+			return "badspec"
+		}
+		b, err := c18EncodingOf(kind, f[2])
+		if err != nil {
+			return "noref"
+		}
+		cls := len(vals)
+		for i, w := range vals {
+			if bytes.Equal(w.b, b) {
+				cls = i
+				break
+			}
+		}
+		vals = append(vals, val{v, b})
+		st := "ok"
+		switch f[0] {
+		case "none":
+			if obj.store(v) != nil {
+				st = "err"
+			}
+		case "fail":
+			c18mu.Lock()
+			restore, err := c18SetLimit(u64(f[1]))
+			if err != nil {
+				c18mu.Unlock()
+				return "nolimit"
+			}
+			e := obj.store(v)
+			restore()
+			c18mu.Unlock()
+			if e != nil {
+				st = "err"
+			}
+		case "die":
+			st = c18RunChild(kind, "die", "-", u64(f[1]), path, f[2])
+			if st != "ok" && st != "err" && st != "died" {
+				return st
+			}
+			obj = c18NewObj(kind, path) // the relayer restarts
+		default:
+			return "badmode"
+		}
+		file := "absent"
+		if fb, rerr := os.ReadFile(clean); rerr == nil {
+			file = "x" + itoa(len(fb))
+			for i, w := range vals {
+				if bytes.Equal(w.b, fb) {
+					file = "v" + itoa(i)
+					break
+				}
+			}
+		}
+		out = append(out, fmt.Sprintf("s,%d,%d,%s,%s,%d,%d", cls, len(b), st, file, left(), intact()))
+	}
+	return joinOr(out, "/")
+}
+
 func init() {
 	if arg := os.Getenv("VERIF_C18_CHILD"); arg != "" {
 		c18Child(arg) // never returns
@@ -853,6 +1024,7 @@ func init() {
 	ops["C18.storero"] = c18OpStoreRO
 	ops["C18.seq"] = c18OpSeq
 	ops["C18.obj"] = c18OpObj
+	ops["C18.life"] = c18OpLife
 	gens["C18"] = genC18
 }
 
@@ -1089,6 +1261,75 @@ func genC18(g *G) {
 				}
 			}
 			g.Emit("obj", kind, joinOr(append(steps, "g"), ";"))
+		}
+	}
+	// 9. the process dies exactly at a STRUCTURAL boundary of the encoding - right after a closing brace / bracket / quote, a
+	//    comma, a colon - where the bytes written so far look most like something complete; then the restarted relayer
+	//    reads (Lock, Get, Unlock). Every closing brace and bracket of the value, a sample of the other boundaries.
+	for _, kind := range kinds {
+		old, nw := c18Spec(2, 0, 0, 0, 0), c18Spec(0, 0, 0, 0, 0)
+		if i := g.Intn(3); i > 0 {
+			old, nw = rndSpec(), rndSpec()
+		}
+		b, err := c18EncodingOf(kind, nw)
+		if err != nil {
+			continue
+		}
+		closers, others := []int{}, []int{}
+		for i, c := range b {
+			switch c {
+			case '}', ']':
+				closers = append(closers, i+1)
+			case '"', ',', ':', '{', '[':
+				others = append(others, i+1)
+			}
+		}
+		for len(closers) > g.Count(45, 400) { // (huge values: a random subset)
+			j := g.Intn(len(closers))
+			closers = append(closers[:j], closers[j+1:]...)
+		}
+		for _, k := range closers {
+			g.Emit("store", kind, "die", itoa(k), old, nw)
+		}
+		for i := 0; i < g.Count(12, 300) && len(others) > 0; i++ {
+			g.Emit("store", kind, "die", itoa(others[g.Intn(len(others))]), old, nw)
+		}
+		// … and inside sequences: die at a closing brace, restart, read, store again, read
+		for i := 0; i < g.Count(6, 120) && len(closers) > 0; i++ {
+			k := closers[g.Intn(len(closers))]
+			g.Emit("life", kind, "clean", "-", "none:0:"+old+";g;die:"+itoa(k)+":"+nw+";g;none:0:"+sized(kind, false)+";g")
+		}
+	}
+	// 10. the path as a configuration may spell it (./, //, /./, /x/../, relative) and other files next to the store's file
+	//     whose names start like, or extend, the store's file name: every access cycle must leave the share readable and the
+	//     neighbours alone
+	spellings := []string{"clean", "dot", "dslash", "dotdot", "rel", "dotrel"}
+	for _, kind := range kinds {
+		for i := 0; i < g.Count(18, 400); i++ {
+			sp := spellings[i%len(spellings)]
+			sib := "-"
+			if i%3 != 0 {
+				xs := []string{}
+				for j := range c18SiblingNames {
+					if g.Intn(3) == 0 || j == i%len(c18SiblingNames) {
+						xs = append(xs, itoa(j))
+					}
+				}
+				sib = joinOr(xs, ",")
+			}
+			a, b := near(kind)
+			steps := []string{"none:0:" + a, "g", "g"}
+			switch g.Intn(4) {
+			case 0:
+				steps = append(steps, "none:0:"+b, "g")
+			case 1:
+				steps = append(steps, "fail:"+itoa(g.Intn(encLen(kind, b)+1))+":"+b, "g", "none:0:"+b, "g")
+			case 2:
+				steps = append(steps, "die:"+itoa(g.Intn(encLen(kind, b)+1))+":"+b, "g", "none:0:"+b, "g")
+			case 3:
+				steps = []string{"g", "none:0:" + a, "g", "none:0:" + rndSpec(), "g"}
+			}
+			g.Emit("life", kind, sp, sib, joinOr(steps, ";"))
 		}
 	}
 	// 4. random everything: kind, mode, previous value or none, same value stored twice, k around the boundaries
